@@ -374,6 +374,7 @@ def run(corrupt=None):
     target_identity(ck, 4, ck.seed)
     # "as the run command wires the sampler up": run()'s option handling up to the arguments of the chain
     from .. import lossprob
+    lossprob.model_runs(ck, False, prefix="c01_")
     lossprob.bind(ck, "C01", 24, (0,), ck.seed, want_spec=False, want_order=False, want_terms=False, want_wiring=True)
     # mechanism level (diagnostic for this property): swarms of real updates must be behaviours of PGibbsSM
     from .. import pgtrace
